@@ -36,6 +36,7 @@ type FuncAn struct {
 	CountNotes []string // paired-count lemmas used
 
 	elemLenMemo map[ssa.Value]*Lin
+	paramElem   map[*ssa.Parameter]Lin // element length of a slice-of-slices parameter, established at every call site
 	inited      map[*Atom]bool
 	inited2     map[*Atom]bool
 	provers     map[*State]*prover
@@ -525,6 +526,8 @@ func (a *FuncAn) binop(x *ssa.BinOp, bits int, uns bool) Lin {
 		at := fresh("%", uns, X, Y)
 		r := AtomLin(at)
 		a.conds = append(a.conds, condLemma{pre: []Lin{X, Y.plus(-1)}, post: []Lin{r, Add(Y, r, -1).plus(-1), Add(X, r, -1)}, why: "remainder by positive divisor"})
+		// Go's remainder has the sign of the dividend, whatever the divisor (a zero divisor panics: its own obligation)
+		a.conds = append(a.conds, condLemma{pre: []Lin{X}, post: []Lin{r, Add(X, r, -1)}, why: "remainder of a non-negative dividend"})
 		return r
 	case token.AND:
 		if X.IsConst() {
